@@ -13,15 +13,17 @@ QUERY_SAFE = ["T_HOO", "HCT", "VHCT", "Zooming"]
 LEARNER_ATTRS = AC.LEARNER_EXPR_ATTRS
 
 
+_MODEL = [None]
+
+
 def is_learner(e):
-    while isinstance(e, ast.Subscript):
-        e = e.value
-    return (is_self_attr(e) and e.attr in LEARNER_ATTRS) or (isinstance(e, ast.Name) and e.id == "algo")
+    return AC.learner_expr(e, None, _MODEL[0])
 
 
 def taint_class(ctx, cls):
     """R15-TAINT for one algorithm class."""
     model = ctx.model
+    _MODEL[0] = model
     c = model.cls(cls)
     file = c.file
     tainted_attrs = {}      # attr -> where it was tainted
@@ -134,7 +136,7 @@ def check_taint(ctx):
         n, ta = taint_class(ctx, cls)
         total += n
         tainted_by_cls[cls] = ta
-    ctx.count("R15-TAINT uses of the time parameter examined", total, 14)
+    ctx.count("R15-TAINT uses of the time parameter examined", total, 10)
     # nobody else reads those attributes through another object (e.g. POO reading learner.iteration)
     model = ctx.model
     names = {a for ta in tainted_by_cls.values() for a in ta}
